@@ -17,7 +17,7 @@ for sid in ids:
     if not os.path.exists(p):
         skipped.append((sid, "no replay")); continue
     j = json.load(open(p))
-    if j.get("kind") not in ("monitor", "mismatch") or not j.get("ops"):
+    if j.get("kind") not in ("monitor", "mismatch", "monitor-after-broken-correspondence") or not j.get("ops"):
         skipped.append((sid, "kind=%s" % j.get("kind"))); continue
     what = (j.get("monitor") or j.get("mismatch") or "")[:200]
     c = {"id": "seed-" + sid, "title": f"minimised history that exposed the seeded change {sid}: {what}", "properties": [prop],
